@@ -151,6 +151,12 @@ def seenOf (T : Tables) (ctx : Ctx) (tag : Str) (b : Bind) (kwargs : Attrs) : Ex
   let body ← bodyOf st.contents
   pure (strAttrs st.attrs, Flatland.C11.decodeRefs body)
 
+/-- the same tag call as the runner (`Flatland/Run/C12.lean`) makes it: `prepareTag` on the generator
+    (keyword arguments re-keyed, attributes in output order), the contents read back by the parser -/
+def seenVia (T : Tables) (order : List Str) (g : Gen) (tag : Str) (b : Bind) (kwargs : Attrs) : Except PyErr Seen := do
+  let r ← prepareTag T order g tag (some b) kwargs
+  pure (strAttrs r.pairs, Flatland.C11.decodeRefs r.contents)
+
 /-- concatenation of what each item posts -/
 def postsAll {α} (f : α → Except PyErr (List Pair)) : List α → Except PyErr (List Pair)
   | [] => pure []
@@ -216,8 +222,10 @@ def reservedKeys : List Str :=
   [sName, sValue, sType, "contents".toList, "auto_name".toList, "auto_value".toList, "auto_domid".toList,
    "auto_for".toList, "auto_tabindex".toList, "auto_filter".toList]
 
+/-- author attributes: distinct names, written as they are to appear (no trailing `_` for
+    `_transform_keys` to strip), none of the reserved ones -/
 def extraOk (a : Attrs) : Bool :=
-  decide (Dict.keys a).Nodup && (Dict.keys a).all (fun k => !reservedKeys.contains k)
+  decide (Dict.keys a).Nodup && (Dict.keys a).all (fun k => !reservedKeys.contains k && rstripUnderscore k == k)
 
 /-- a text-like `<input>` type: not checkbox/radio, not password/file/image (KF-C12-a), and read
     the same way by the library (`str.lower`) and by a browser (ASCII case-insensitive) -/
